@@ -129,9 +129,9 @@ def app_check(ctx, prop, props_v, theorems, codes, pred, extra_assume, known_cla
         V.violation(ctx, "harness-build", {"kind": "harness-does-not-build", "detail": out[-3000:]}, nofail=True)
         V.write_evidence(ctx, "proof", {}, assume)
         return None
-    nh = histories or (6 if ctx.quick() else 120)
+    nh = histories or (6 if ctx.quick() else 360)
     nb = blocks or (40 if ctx.quick() else 70)
-    shards = 3 if ctx.quick() else 15
+    shards = 3 if ctx.quick() else 36
     evals = "bad=check_props [%s] %s" % (";".join(str(c) for c in codes), pred)
     if extra_evals:
         evals += "|" + extra_evals
@@ -157,24 +157,34 @@ def app_check(ctx, prop, props_v, theorems, codes, pred, extra_assume, known_cla
         files.append(f)
         stats.append(json.load(open(st)))
         shards = 0
-    for s in range(shards):
+    def gen_shard(s):
+        sd = os.path.join(ctx.scratch, "shard%d" % s)   # own scratch: the shards run in parallel
+        os.makedirs(sd, exist_ok=True)
         f = os.path.join(ctx.scratch, "cases_app_%d.v" % s)
         st = os.path.join(ctx.scratch, "astats_%d.json" % s)
         prof = profile if s == 0 else profile.replace("corpus", "")
         rc, o = V.run_harness(ctx, binp, "app", ["-seed", ctx.seed * 1000 + s, "-n", max(1, nh // shards), "-blocks", nb, "-out", f,
-                                                "-scratch", ctx.scratch, "-stats", st, "-json", f + ".json", "-profile", prof, "-evals", evals])
-        if rc != 0:
-            V.violation(ctx, "harness-run", {"kind": "harness-failed", "detail": o[-3000:]}, nofail=True)
-            V.write_evidence(ctx, "proof", {}, assume)
-            return None
-        files.append(f)
-        stats.append(json.load(open(st)))
+                                                "-scratch", sd, "-stats", st, "-json", f + ".json", "-profile", prof, "-evals", evals])
+        shutil.rmtree(sd, ignore_errors=True)
+        return s, rc, o, f, st
+    if shards:
+        from concurrent.futures import ThreadPoolExecutor
+        with ThreadPoolExecutor(max_workers=int(os.environ.get("VERIF_GEN_JOBS", "6"))) as ex:
+            outs = sorted(ex.map(gen_shard, range(shards)))
+        for s, rc, o, f, st in outs:
+            if rc != 0:
+                V.violation(ctx, "harness-run", {"kind": "harness-failed", "detail": o[-3000:]}, nofail=True)
+                V.write_evidence(ctx, "proof", {}, assume)
+                return None
+            files.append(f)
+            stats.append(json.load(open(st)))
     res = V.run_case_files(ctx, files, names=("bad", "eff", "neff") + tuple(e.split("=")[0] for e in (extra_evals or "").split("|") if "=" in e))
     found_input = False
     EFFECT_TEXT = {20: "an EVM-path transaction succeeded but the node exhibited no effect", 21: "the accounts touched by an EVM execution did not lose exactly gas used x price in total (hypothesis evm_effect_fee_ok of the C02/C16 EVM-path theorems)",
                    24: "value vanished during an EVM execution: the touched accounts lost more than gas used x price although no program of this history destroys value and every address the programs can pay is watched (C02 conservation / C16 exact fee)",
                    22: "the sender's nonce after an EVM execution is not nonce + 1 (evm_effect_nonce_ok, C04)", 23: "an EVM execution lowered the nonce of a sending account (evm_effect_mono_at, C04)"}
     ctx.effects_checked = 0
+    later = []   # divergences without a falsified predicate: reported only if no failing input turns up
     for f, r in res.items():
         if r["rc"] != 0 or r.get("eff") is None:
             continue
@@ -187,6 +197,16 @@ def app_check(ctx, prop, props_v, theorems, codes, pred, extra_assume, known_cla
             if not mine:
                 continue
             h = hs[idx]
+            # the Coq check judges the effect against the MODEL's state before the transaction (that is
+            # what the theorems' hypothesis says); the harness judged the same effect against the node's
+            # own values before the transaction.  Only when the node's own values break the contract is
+            # this a failing input of the implementation; otherwise model and node had diverged before
+            pure = [t["Evm"]["Pure"] for b in h["Blocks"] for t in (b.get("Txs") or []) if t.get("Evm") and t["Evm"].get("Pure")]
+            if not pure:
+                later.append(("correspondence:spec-vs-app:evm-effect", {"kind": "model-implementation-divergence",
+                              "what": "an observed EVM effect breaks the effect contract relative to the model's state but not relative to the node's own state before the transaction: model and node differed before it",
+                              "positions_and_codes": mine, "history": {k: h[k] for k in ("Seed", "Genesis", "Blocks", "WatchA", "WatchH", "StrTab", "OptTab")}}))
+                continue
             found_input = True
             key = "evm-effect-breaks-contract-%d" % mine[0][1]
             slim, shrink_info = {k: h[k] for k in ("Seed", "Genesis", "Blocks", "WatchA", "WatchH", "StrTab", "OptTab")}, None
@@ -196,8 +216,7 @@ def app_check(ctx, prop, props_v, theorems, codes, pred, extra_assume, known_cla
                 slim, shrink_info = shrink_history(ctx, binp, slim, evals, lambda r: any(c in want for e in (r.get("eff") or []) for (_, c) in e[1]), fail_codes=fc)
             V.violation(ctx, key,
                         {"kind": "observed-evm-effect-violates-the-effect-contract", "what": EFFECT_TEXT.get(mine[0][1]), "positions_and_codes": mine,
-                         "theorem_hypothesis": "EffectCheck.effect_contract", "history": slim, "minimised": shrink_info})
-    later = []   # divergences without a falsified predicate: reported only if no failing input turns up
+                         "node_own_values": pure[:3], "theorem_hypothesis": "EffectCheck.effect_contract", "history": slim, "minimised": shrink_info})
     for f, r in res.items():
         if r["rc"] != 0 or r.get("bad") is None:
             V.violation(ctx, "model-eval", {"kind": "model-evaluation-failed", "file": f, "detail": r["out"][-2000:]}, nofail=True)
